@@ -35,7 +35,7 @@ func C17(c *Ctx) {
 	src := filepath.Join(sc.Dir, "stackmon", "src")
 	out := filepath.Join(sc.Dir, "stackmon", "out")
 	// PRNG loop nests, compiled together with the hand-written workload
-	nAuto := 60
+	nAuto := 120
 	if c.Thorough() {
 		nAuto = 400
 	}
@@ -66,7 +66,7 @@ func C17(c *Ctx) {
 	}
 	configs := []string{"ForPost", "ForCondProbe", "While", "Infinite", "Continue", "ContinueWhile", "RangeInt", "RangeSlice", "Switch", "Nested", "Filter",
 		"NestedCondInner", "NestedEndlessInner", "ThreeLevels", "FlatMap", "ManualPull", "RangeOtherInBody",
-		"rawFor", "rawWhileContinue", "rawLoopBreak", "rawCombineInLoop", "rawSharedInner"}
+		"rawFor", "rawWhileContinue", "rawLoopBreak", "rawCombineInLoop", "rawSharedInner", "rawRecvThenStretch", "rawRecvInWhileCombine"}
 	// configurations that also exist in the variant "yield at the first iteration as well": the long
 	// non-yielding stretch then comes AFTER a yield of the same loop run
 	withFirst := map[string]bool{"ForPost": true, "ForCondProbe": true, "While": true, "Infinite": true, "Continue": true, "ContinueWhile": true, "RangeInt": true,
@@ -91,6 +91,9 @@ func C17(c *Ctx) {
 		id := "stack:" + cfg
 		argv := []string{bin, "-config", cfg, "-n", fmt.Sprint(n)}
 		wantYields := 1
+		if cfg == "rawRecvThenStretch" || cfg == "rawRecvInWhileCombine" {
+			wantYields = 2 // the receiving yield of the first iteration and the final one
+		}
 		if first {
 			id += ":yield-first-too"
 			argv = append(argv, "-first")
@@ -213,7 +216,7 @@ func C17(c *Ctx) {
 	c.Rep.Set("iterations_between_yields", n)
 	c.Rep.Set("delegation_depth", chain)
 	c.Rep.Set("growth_bound_frames", maxGrowth)
-	c.Rep.Rule = "PRNG loop nests (60 quick / 400 thorough: 1..3 levels x seven loop forms incl. loops without init clause re-entered by an outer loop, decorated with Combine halves, monadic switches / ifs holding a never-taken yield, delegation to and consumer loops over an empty generator, closures, continue after the counter advanced) + 22 hand-written loop configurations (loop bodies that advance ANOTHER generator during the non-yielding stretch: flat-map over mostly empty sub-generators, manual pull, range over another generator; compiled for/while/infinite/continue/range-int/range-slice/switch/nested (inner three-clause, inner condition-only and endless loops without init that contain the yield, three levels)/filter-over-source generators produced by the real compiler, and raw seq.For/While/Loop/Combine terms incl. one inner loop VALUE re-run by an outer loop) whose body yields only on the last of n iterations, each also in the variant that yields at the first iteration too (the non-yielding stretch then follows a yield of the same loop run); runtime.Callers depth sampled inside the loop body/condition at iterations 2,10,100,...,n; oracle: depth(i>=10) - depth(10) <= 16 frames for the hand-written configurations, depth(i>=1000) - depth(1000) <= 96 frames for the PRNG nests (the depth differs by a few frames per nesting level with the position inside the nest; at n = 10^5 any per-iteration or per-outer-iteration growth exceeds the bound by orders of magnitude); delegation chains d=1..D: per-level increment constant (+4). One child process per configuration (a stack overflow is fatal). distinct = configuration x sampled iteration index."
+	c.Rep.Rule = "PRNG loop nests (120 quick / 400 thorough: 1..6 levels x seven loop forms incl. loops without init clause re-entered by an outer loop, decorated with Combine halves, monadic switches / ifs holding a never-taken yield, delegation to and consumer loops over an empty generator, closures, continue after the counter advanced) + 22 hand-written loop configurations (loop bodies that advance ANOTHER generator during the non-yielding stretch: flat-map over mostly empty sub-generators, manual pull, range over another generator; compiled for/while/infinite/continue/range-int/range-slice/switch/nested (inner three-clause, inner condition-only and endless loops without init that contain the yield, three levels)/filter-over-source generators produced by the real compiler, and raw seq.For/While/Loop/Combine terms incl. one inner loop VALUE re-run by an outer loop) whose body yields only on the last of n iterations, each also in the variant that yields at the first iteration too (the non-yielding stretch then follows a yield of the same loop run); runtime.Callers depth sampled inside the loop body/condition at iterations 2,10,100,...,n; oracle: depth(i>=10) - depth(10) <= 16 frames for the hand-written configurations, depth(i>=1000) - depth(1000) <= 96 frames for the PRNG nests (the depth differs by a few frames per nesting level with the position inside the nest; at n = 10^5 any per-iteration or per-outer-iteration growth exceeds the bound by orders of magnitude); delegation chains d=1..D: per-level increment constant (+4). One child process per configuration (a stack overflow is fatal). distinct = configuration x sampled iteration index."
 	c.Rep.Assumptions = append(c.Rep.Assumptions,
 		"the unbounded 'for all n' is restated as bounded growth up to the stated n; a finite run cannot decide more",
 		"growth, not absolute depth, is judged, so refactorings that add a constant number of frames pass")
